@@ -1,4 +1,5 @@
 import ConjureVerif.Model.Wire
+import ConjureVerif.Lemmas.WireIdem
 import ConjureVerif.Gen.CodegenObjectsSrc
 import ConjureVerif.Gen.CodegenContextSrc
 import ConjureVerif.Gen.CodegenUnionsSrc
@@ -96,17 +97,18 @@ theorem C02_optional_absent_eq_null (cfg : Cfg) (inner : CTy) (name : Bytes) (su
 
 /-- an absent collection is the empty collection; empty collections are omitted unless serialize-empty-collections;
 an explicit `null` is not a collection -/
-theorem C02_collection_field (cfg : Cfg) (isMap : Bool) (name : Bytes) (sub : Doc → Option Doc) :
+theorem C02_collection_field (cfg : Cfg) (isMap : Bool) (name : Bytes) (sub : Doc → Option Doc)
+    (hsub : sub (if isMap then Doc.obj .nil else Doc.arr .nil) = some (if isMap then Doc.obj .nil else Doc.arr .nil)) :
     (cfg.serializeEmpty = false → fieldPart cfg (.collection isMap) name none sub = some []) ∧
     (cfg.serializeEmpty = true → fieldPart cfg (.collection isMap) name none sub =
       some [(Key.text name, if isMap then Doc.obj .nil else Doc.arr .nil)]) ∧
     fieldPart cfg (.collection isMap) name (some .null) sub = none ∧
-    (cfg.serializeEmpty = false → sub (.arr .nil) = some (.arr .nil) →
-      fieldPart cfg (.collection isMap) name (some (.arr .nil)) sub = some []) := by
+    (cfg.serializeEmpty = false →
+      fieldPart cfg (.collection isMap) name (some (if isMap then Doc.obj .nil else Doc.arr .nil)) sub = some []) := by
   refine ⟨?_, ?_, rfl, ?_⟩
-  · intro h; simp [fieldPart, h]
-  · intro h; simp [fieldPart, h]
-  · intro h hs; simp [fieldPart, h, hs, isEmptyColl]
+  · intro h; simp [fieldPart, h, hsub]
+  · intro h; simp [fieldPart, h, hsub]
+  · intro h; cases isMap <;> simp_all [fieldPart, isEmptyColl]
 
 /-- a present field is written under its declared name with the canonical form of its value -/
 theorem C02_field_rename (cfg : Cfg) (name : Bytes) (v v' : Doc) (sub : Doc → Option Doc) (hv : v ≠ .null)
@@ -163,6 +165,17 @@ theorem C02_union_canonical (defs : Defs) (cfg : Cfg) (fuel n : Nat) (variants :
   rw [(C02_union_either_order name payload hn).2]
   rfl
 
+/-! #### the canonical form is canonical -/
+
+/-- **re-serialization is stable**: for any definitions whose objects have distinct field names, any configuration
+(client or server, exhaustive or not, with or without empty collections), any type — however deeply nested or
+recursive — and any accepted document, the canonical form is itself accepted and is its own canonical form.
+So what a generated type writes is read back to the same value and written identically (serialize ∘ deserialize
+is the identity on its own output). -/
+theorem C02_canonical_is_fixed_point (defs : Defs) (cfg : Cfg) (wf : DefsWF defs) (fuel : Nat) (t : CTy) (d d' : Doc)
+    (h : canon defs cfg fuel t d = some d') : canon defs cfg fuel t d' = some d' :=
+  canon_idempotent defs cfg wf fuel t d d' h
+
 /-! #### lists, sets and maps reject other JSON kinds -/
 theorem C02_collection_wrong_kind (defs : Defs) (cfg : Cfg) (fuel : Nat) (t k : CTy) :
     canon defs cfg (fuel + 1) (.list t) (.obj .nil) = none ∧ canon defs cfg (fuel + 1) (.list t) (.str []) = none ∧
@@ -175,6 +188,14 @@ def exDefs : Defs := [
   .union [([118], .ref 0)],
   .alias (.ref 0)]
 def exCfg : Cfg := { exhaustive := false, serializeEmpty := false, server := true }
+
+example : DefsWF exDefs := by
+  intro n fields h
+  match n, h with
+  | 0, h => simp [exDefs] at h; subst h; decide
+  | 1, h => simp [exDefs] at h
+  | 2, h => simp [exDefs] at h
+  | n + 3, h => simp [exDefs] at h
 
 example : (canon exDefs exCfg 20 (.ref 2) (.obj (.cons (.text [111]) .null (.cons (.text [97]) (.int 7) .nil)))).isSome = true := by
   decide +kernel
